@@ -2,6 +2,8 @@ package main
 
 import (
 	"go/ast"
+	"go/constant"
+	"go/token"
 	"go/types"
 	"strings"
 )
@@ -23,6 +25,7 @@ func init() {
 		if fd.Type.Params != nil && len(fd.Type.Params.List) > 0 && len(fd.Type.Params.List[0].Names) > 0 {
 			param = info.Defs[fd.Type.Params.List[0].Names[0]]
 		}
+		defs := localDefs(info, fd.Body)
 		reassigned := ""
 		nConv, okConv := 0, true
 		ast.Inspect(fd.Body, func(nd ast.Node) bool {
@@ -36,8 +39,18 @@ func init() {
 			case *ast.CallExpr:
 				if fn, ok := callee(info, x).(*types.Func); ok && fn.Name() == "ConvertGoType" && len(x.Args) == 2 {
 					nConv++
-					id, isID := unparen(x.Args[0]).(*ast.Ident)
-					if !isID || info.ObjectOf(id) != param || !isPkgObj(info, x.Args[1], mx("lang/types"), "String") {
+					// the value: the parameter, directly or through a single-definition local (`v := value`);
+					// the target type: types.String or a constant with its value (`const target = types.String`)
+					id, isID := defs.resolve1(info, x.Args[0]).(*ast.Ident)
+					isStr := isPkgObj(info, x.Args[1], mx("lang/types"), "String")
+					if !isStr && fn.Pkg() != nil {
+						if k, isK := fn.Pkg().Scope().Lookup("String").(*types.Const); isK {
+							if tv, has := info.Types[x.Args[1]]; has && tv.Value != nil && constant.Compare(tv.Value, token.EQL, k.Val()) {
+								isStr = true
+							}
+						}
+					}
+					if !isID || info.ObjectOf(id) != param || !isStr {
 						okConv = false
 					}
 				}
